@@ -125,31 +125,8 @@ impl SearchAlgorithm {
                 weight_factor: Some(Cost::ZERO),
             }
             .run_edge_oriented(src_id, dst_id_opt, query, direction, search_instance),
-            SearchAlgorithm::AStarAlgorithm { weight_factor } => {
-                let search_result = a_star_algorithm::run_a_star_edge_oriented(
-                    src_id,
-                    dst_id_opt,
-                    direction,
-                    *weight_factor,
-                    search_instance,
-                )?;
-                let routes = match dst_id_opt {
-                    None => vec![],
-                    Some(dst_id) => {
-                        let route = backtrack::edge_oriented_route(
-                            src_id,
-                            dst_id,
-                            &search_result.tree,
-                            search_instance.directed_graph.clone(),
-                        )?;
-                        vec![route]
-                    }
-                };
-                Ok(SearchAlgorithmResult {
-                    trees: vec![search_result.tree],
-                    routes,
-                    iterations: search_result.iterations,
-                })
+            SearchAlgorithm::AStarAlgorithm { weight_factor: _ } => {
+                run_edge_oriented(src_id, dst_id_opt, query, direction, self, search_instance)
             }
             SearchAlgorithm::KspSingleVia {
                 k: _,
@@ -171,8 +148,6 @@ impl SearchAlgorithm {
 /// edge ids instead of vertex ids. invokes a vertex-oriented search
 /// from the out-vertex of the source edge to the in-vertex of the
 /// target edge. composes the result with the source and target.
-///
-/// not tested.
 pub fn run_edge_oriented(
     source: EdgeId,
     target: Option<EdgeId>,
@@ -203,7 +178,9 @@ pub fn run_edge_oriented(
                 iterations,
             } = alg.run_vertex_oriented(e1_dst, None, query, direction, si)?;
             for tree in trees.iter_mut() {
-                if !tree.contains_key(&e1_dst) {
+                // the source edge can only become the root branch if its start vertex was not
+                // reached by the search (u-turn, cycle), otherwise the tree would contain a cycle
+                if !tree.contains_key(&e1_dst) && !tree.contains_key(&e1_src) {
                     tree.extend([(e1_dst, src_branch.clone())]);
                 }
             }
